@@ -10,6 +10,10 @@ NOT_APPLICABLE = {
 
 # id -> (engine, level category, level text, level note, technique, design_ref)
 CHECKS = {
+    "C15": ("StepExec", "fault_enumeration",
+            "Node-level simulation through the public API of the real p2panda::Node on a file database (network stack spawned but idle): a seeded script of publish / prune / import / ack steps is re-executed once per crash position — after every step (node, streams and runtime dropped without shutdown) and, in a child process, abort() at every occurrence of each armed crash point inside the code (after the forge's commit, after the pipeline result, after the cursor update; hook H6). After each crash the durable state is read back, a new node on the same key and database replays from the frontier, and the replayed ids must equal {stored operations with a body above the durable cursor}; nothing the application acknowledged successfully is replayed; with explicit acks a second restart replays what is then durable.",
+            "Crash model: process death with intact OS page cache (SQLite durability trusted). Uses bounded real-time waits (5 s for an expected replay, 150 ms to confirm an empty one), so it is the one check whose cost depends on machine load; sequential, one API call in flight.",
+            "deterministic workload with fault enumeration: every step boundary and every armed crash point as process-crash position, replay compared with a durable-state model", "§4 C15"),
     "C30": ("StepExec", "exploration",
             "Two StepExec activities run the real PsiHashDiscoveryProtocol alice / bob roles over SimDuplex carrying the production postcard bytes, each with its own in-memory SQLite address book: seeded topic sets (0-100 % overlap, shared 31-byte prefixes, empty sides), address books with per-node topic sets, restricted sharing on / off; both results must equal the exact intersection, no raw 32-byte topic (of either side or of address-book nodes) may occur in the postcard or CBOR bytes or hex of any message, restricted sharing sends only nodes with a common topic plus self; with a stream close / sink error / stream error at message k the hit side returns Err, nobody hangs and any Ok result is still correct.",
             "Local topics and node infos come from the crate's test_utils stubs. Salts are drawn from rand::rng() inside the protocol (a function of the run seed through the interposed getrandom); no oracle or trace depends on them.",
